@@ -3,57 +3,54 @@
     with the same function the theorems are about.
 
     [known_class sch evs q = None] is the hypothesis of [C02_exact_outside_known]; every
-    constructor other than [IllTyped] names one mechanism (see notes/C02.md):
+    constructor other than [IllTyped] names one mechanism (see notes/C02.md).  After the fix round
+    (/repo d4c8eed f801704 6311f23 85f577c 39dd6e5 db7c428) the classes FloatColumn, BoolColumn,
+    NeqPruned, EnumUnknownVariant, TemporalNegativeLiteral and MixedZoneProvenance are gone; what is
+    left of them is the narrower FloatColumnIn, FloatThresholdRounded and NeqOnOptionalText.
 
     NotComplement          the WHERE clause contains NOT: zone_group_collector.rs [handle_not] reads
                            the complement of the leaf's zones — a zone holding both a satisfying and a
                            non-satisfying row is dropped
     LiteralDropped         a decimal literal (or the bare-field atom): condition_evaluator_builder.rs
                            [add_where_clause] builds no condition, the pruning still uses the leaf
-    FloatColumn            a comparison on a float field: in memory [get_field_as_i64] has no i64 view of
-                           a Float64; after flush a top-level numeric condition rejects every row of an
-                           f64 block ([evaluate_numeric_simd])
-    BoolColumn             a comparison on a bool field: a string condition has no view of a Bool block
-    NeqPruned              [!=] on a non-enum field: the zone-xor / temporal pruner serves only [=] /
-                           ranges and field_selector.rs turns its None into "no zones"
-    EnumUnknownVariant     [!=] an undeclared enum variant: enum_pruner.rs answers None -> no zones
-    U64NegativeThreshold   [>]/[>=] a negative number on a u64 field: the "negative threshold -> false"
-                           shortcut of condition.rs / condition_evaluator.rs
+    FloatColumnIn          IN on a float field: [InNumericCondition::evaluate_event_direct] still has no
+                           view of a Float64 cell (the repair covered [NumericCondition] only)
+    FloatThresholdRounded  an integer literal of magnitude 2^53 or more on a float field: the comparison
+                           is made against [threshold as f64], i.e. against the rounded literal
+    U64NegativeThreshold   [>], [>=], [!=] a negative number on a u64 field: the "negative threshold ->
+                           false" shortcut of condition.rs / condition_evaluator.rs
     U64AboveI64Max         a u64 value above i64::MAX is kept in memory as text
     NumericLookingString   a string/enum literal that parses as a time or an i64 becomes a numeric condition
     StringOrdering         [<,<=,>,>=] on a string field: [StringCondition] answers false
-    NullSpelling           the literal "" or "null" on an optional string/enum field (or != on an optional
-                           enum field): in memory an absent cell reads "" and a null cell reads "null"
-    TemporalNegativeLiteral a negative instant on a datetime field: temporal_pruner.rs clamps it to 0 *)
+    NullSpelling           the literal "" or "null" on an optional string/enum field: in memory an
+                           absent cell reads "" and a null cell reads "null"
+    NeqOnOptionalText      [!=] on an optional string / enum / bool field: a null or absent cell reads
+                           "null" / "" and therefore satisfies the inequality *)
 From Coq Require Import ZArith NArith List Bool.
 From Snel Require Import Base.Bytes Model.Time Model.Value Model.Expr Model.Sem Model.Cond.
 Import ListNotations.
 
 Inductive kclass :=
-| NotComplement | LiteralDropped | FloatColumn | BoolColumn | NeqPruned | EnumUnknownVariant
+| NotComplement | LiteralDropped | FloatColumnIn | FloatThresholdRounded
 | U64NegativeThreshold | U64AboveI64Max | NumericLookingString | StringOrdering | NullSpelling
-| TemporalNegativeLiteral | IllTyped.
+| NeqOnOptionalText | IllTyped.
 
 Definition is_plain_str (s : bytes) : bool :=
   match build_lit (LStr s) with BStr _ => true | _ => false end.
 Definition null_like (s : bytes) : bool := bytes_eqb s [] || bytes_eqb s b_null.
+Definition is_ne (op : cmp) : bool := match op with CNe => true | _ => false end.
 
 Definition atom_class (d : fdecl) (op : cmp) (l : lit) : option kclass :=
   match l with
   | LFloat _ _ | LBool _ => if wt_atom (f_kind d) op l then Some LiteralDropped else Some IllTyped
   | LInt v =>
       match f_kind d with
-      | KFloat => Some FloatColumn
-      | KInt => match op with CNe => Some NeqPruned | _ => None end
+      | KFloat => if (Z.abs v <? 2 ^ 53)%Z then None else Some FloatThresholdRounded
+      | KInt | KTime => None
       | KU64 => match op with
-                | CNe => Some NeqPruned
-                | CGt | CGe => if (v <? 0)%Z then Some U64NegativeThreshold else None
+                | CGt | CGe | CNe => if (v <? 0)%Z then Some U64NegativeThreshold else None
                 | _ => None
                 end
-      | KTime => match op with
-                 | CNe => Some NeqPruned
-                 | _ => if (v <? 0)%Z then Some TemporalNegativeLiteral else None
-                 end
       | _ => Some IllTyped
       end
   | LStr s =>
@@ -61,27 +58,24 @@ Definition atom_class (d : fdecl) (op : cmp) (l : lit) : option kclass :=
       | KTime =>
           match parse_str_to_epoch_seconds s with
           | None => Some IllTyped
-          | Some v => match op with
-                      | CNe => Some NeqPruned
-                      | _ => if (v <? 0)%Z then Some TemporalNegativeLiteral else None
-                      end
+          | Some _ => None
           end
       | KStr =>
           if negb (is_plain_str s) then Some NumericLookingString
           else if is_range op then Some StringOrdering
-          else match op with
-               | CNe => Some NeqPruned
-               | _ => if f_opt d && null_like s then Some NullSpelling else None
-               end
+          else if f_opt d && null_like s then Some NullSpelling
+          else if f_opt d && is_ne op then Some NeqOnOptionalText
+          else None
       | KEnum vs =>
           if is_range op then Some IllTyped
           else if negb (is_plain_str s) then Some NumericLookingString
-          else if f_opt d && (null_like s || match op with CNe => true | _ => false end) then Some NullSpelling
-          else match op with
-               | CNe => if mem_bytes s vs then None else Some EnumUnknownVariant
-               | _ => None
-               end
-      | KBool => if wt_atom KBool op l then Some BoolColumn else Some IllTyped
+          else if f_opt d && null_like s then Some NullSpelling
+          else if f_opt d && is_ne op then Some NeqOnOptionalText
+          else None
+      | KBool =>
+          if wt_atom KBool op l
+          then (if f_opt d && is_ne op then Some NeqOnOptionalText else None)
+          else Some IllTyped
       | _ => Some IllTyped
       end
   end.
@@ -98,7 +92,11 @@ Fixpoint expr_class (sch : schema) (e : expr) : option kclass :=
   | ECmp f op l => match find_decl sch f with Some d => atom_class d op l | None => Some IllTyped end
   | EIn f ls =>
       match find_decl sch f, ls with
-      | Some d, _ :: _ => first_some (map (atom_class d CEq) ls)
+      | Some d, _ :: _ =>
+          match f_kind d with
+          | KFloat => Some FloatColumnIn
+          | _ => first_some (map (atom_class d CEq) ls)
+          end
       | _, _ => Some IllTyped
       end
   | EAnd a b | EOr a b =>
